@@ -8,12 +8,14 @@ pub mod seqs;
 pub mod c05;
 pub mod c06;
 pub mod c07;
+pub mod c08;
 pub mod c09;
 pub mod c10;
 pub mod c11;
 pub mod c12;
 pub mod c13;
 pub mod c14;
+pub mod c16;
 pub mod c17;
 pub mod c18;
 
@@ -24,6 +26,7 @@ macro_rules! dispatch {
         match $id {
             "C01" => $f(&c01::C01, $($arg),*),
             "C02" => $f(&c02::C02, $($arg),*),
+            "C16" => $f(&c16::C16, $($arg),*),
             "C17" => $f(&c17::C17, $($arg),*),
             "C18" => $f(&c18::C18, $($arg),*),
             "C03" => $f(&c03::C03, $($arg),*),
@@ -36,6 +39,7 @@ macro_rules! dispatch {
             "C12" => $f(&c12::C12, $($arg),*),
             "C13" => $f(&c13::C13, $($arg),*),
             "C14" => $f(&c14::C14, $($arg),*),
+            "C08" => $f(&c08::C08, $($arg),*),
             "C09" => $f(&c09::C09, $($arg),*),
             _ => {
                 eprintln!("MACHINERY: unknown property {}", $id);
